@@ -211,6 +211,20 @@ var properties = map[string]*Property{
 		},
 		MustBePositive: []string{"mech-sim/variants-created", "mech-sim/concurrent-executions"},
 	},
+	"C18": {
+		ID: "C18",
+		Harnesses: []Harness{{
+			Name: "provider-http", Property: "C18", Pkg: "./internal/rules/provider/httpendpoint", Test: "TestVerifC18HTTP",
+			Dirs:     []string{"internal/rules/provider/httpendpoint"},
+			Files:    []string{"zz_verif_c18_test.go"},
+			CPU1:     true,
+			Quick:    Tier{Runs: 2000, BudgetS: 100},
+			Thorough: Tier{Runs: 100000, BudgetS: 1200},
+		}},
+		Rule: "TODO",
+		Real: []string{"TODO"},
+		Stub: []string{"TODO"},
+	},
 	"C19": {
 		ID: "C19",
 		Harnesses: []Harness{{
